@@ -1,12 +1,178 @@
-/- Driver family `lz`: C08 C09 C10 C11 — LZ10 / LZ13.  (stub: replace `family`) -/
+/- Driver family `lz`: C08 C09 C10 C11 — LZ10 / LZ13.
+
+Case lines
+  `<id> c10|b10 <period> <input-hex>` LZ10CompressionFormat::compress   → `ok <hex> rt=ok`
+  `<id> c13|b13 <period> <input-hex>` LZ13CompressionFormat::compress   → `ok <hex> rt=ok alloc=ok`
+  (`c*`: judged against the C08/C09 clauses; `b*`: against the C10 size bounds)
+  `<id> d10|d13|f10|f13 <stream-hex>` LZ10/LZ13/CompressionFormat::decompress → `ok <hex> x=ok` | `err Invalid x=ok` | `panic`
+`period` is a period the generator claims for the input (0 = none); the oracle re-checks it.
+-/
 import Driver.Common
+import MilaModel.Model.Lz
+import MilaModel.Spec.LzStream
 
 namespace Driver.Lz
-open Mila
+open Mila Mila.Lz
+
+
+
+def baEq (a b : BA) : Bool := a == b
+
+/-- Is `p` a period of `x`? -/
+def isPeriodic (x : BA) (p : Nat) : Bool :=
+  p ≥ 1 && (List.range (x.size - p)).all (fun i => x.getD i 0 == x.getD (i + p) 0)
+
+def ceilDiv (a b : Nat) : Nat := (a + b - 1) / b
+
+/-- C10 bound for an input of `n` bytes with period `p`. -/
+def periodicBound (H r L n p : Nat) : Nat :=
+  let refs := ceilDiv (n - p) L + 1
+  H + (p + 2) + r * refs + ceilDiv ((p + 2) + refs) 8
+
+/-- Strip the 4-byte `0x13` wrapper of an LZ13 output. -/
+def body? (is13 : Bool) (out : Bytes) : Option Bytes :=
+  if is13 then
+    match out with
+    | 0x13 :: _ :: _ :: _ :: s => some s
+    | _ => none
+  else some out
+
+/-- C08 / C09 oracle for a compress case, judged on the implementation's output line: wrapper,
+well-formed stream (independent parser), valid tokens, expansion = input, library round trip,
+allocation request (LZ13). -/
+def oracleCompress (is13 : Bool) (x : BA) (impl : List String) : String :=
+  match impl with
+  | _ :: "ok" :: outHex :: rest =>
+    match bytesOfHex outHex with
+    | none => "FAIL unreadable output"
+    | some out =>
+      let n := x.size
+      match body? is13 out with
+      | none => "FAIL LZ13 output does not start with a 4-byte 0x13 wrapper"
+      | some body =>
+        if is13 && !(rest.contains "alloc=ok") then "FAIL C09 allocation request above 13 + n + n/8"
+        else if is13 && n == 0 then "ok empty"  -- C09 asks only for Ok/Err without panic on the empty input
+        else if n ≥ 2 ^ 24 then "ok skip input of 16 MiB or more"
+        else
+        match Spec.Lz.parse body with
+        | .error e => "FAIL stream is not well-formed: " ++ e.name
+        | .ok (ext, n', toks) =>
+          if ext != is13 then "FAIL wrong stream type byte"
+          else if n' != n then s!"FAIL header length {n'} != input length {n}"
+          else if !(Spec.Lz.validB ext toks) then "FAIL invalid token (length/displacement range or reach)"
+          else if !(baEq (Spec.Lz.expand toks) x) then "FAIL independent decoder: expansion differs from the input"
+          else if !(rest.contains "rt=ok") then "FAIL library decompress(compress(x)) != x"
+          else s!"ok tokens={toks.length}"
+  | _ :: "panic" :: _ => "FAIL panic"
+  | _ :: "err" :: _ => if is13 && x.size ≥ 2 ^ 24 then "ok skip" else "FAIL compress returned an error"
+  | _ => "FAIL unreadable implementation line"
+
+/-- C10 oracle: the two inequalities on the implementation's output. -/
+def oracleBounds (is13 : Bool) (p : Nat) (x : BA) (impl : List String) : String :=
+  match impl with
+  | _ :: "ok" :: outHex :: _ =>
+    match bytesOfHex outHex with
+    | none => "FAIL unreadable output"
+    | some out =>
+      let n := x.size
+      let H := if is13 then (if n == 0 then 12 else 8) else 4
+      if out.length > H + n + ceilDiv n 8 then
+        s!"FAIL C10 expansion bound: {out.length} > {H} + {n} + ceil({n}/8)"
+      else if p > 0 && p ≤ 4096 && isPeriodic x p then
+        let b := if is13 then periodicBound 8 4 4096 n p else periodicBound 4 2 18 n p
+        if out.length > b then s!"FAIL C10 periodic bound: period {p}, n {n}: {out.length} > {b}"
+        else "ok periodic"
+      else "ok"
+  | _ :: "panic" :: _ => "FAIL panic"
+  | _ => "FAIL compress did not return a stream"
+
+def modelCompress (is13 : Bool) (x : BA) : String :=
+  if is13 then
+    let (r, req) := compress13 x
+    match r with
+    | .ok out =>
+      let rt := match decompress13 out.toList with
+        | .ok y => if baEq y x then "rt=ok" else "rt=bad"
+        | _ => "rt=bad"
+      let alloc := if req ≤ 13 + x.size + x.size / 8 then "alloc=ok" else "alloc=big"
+      "ok " ++ hexOfBytes out.toList ++ " " ++ rt ++ " " ++ alloc
+    | .err e => "err " ++ e.name
+    | .panic => "panic"
+  else
+    match compress10 x with
+    | .ok out =>
+      let rt := match decompress10 out.toList with
+        | .ok y => if baEq y x then "rt=ok" else "rt=bad"
+        | _ => "rt=bad"
+      "ok " ++ hexOfBytes out.toList ++ " " ++ rt
+    | .err e => "err " ++ e.name
+    | .panic => "panic"
+
+def modelDecode (kind : String) (s : Bytes) : String :=
+  let r := match kind with
+    | "d10" => decompress10 s
+    | "d13" => decompress13 s
+    | "f10" => Format.decompress .lz10 s
+    | _ => Format.decompress .lz13 s
+  match r with
+  | .ok out => "ok " ++ hexOfBytes out.toList ++ " x=ok"
+  | .err e => "err " ++ e.name ++ " x=ok"
+  | .panic => "panic"
+
+/-- What the specification demands of a decoder on the bare stream `s`. -/
+def judgeStream (s : Bytes) (impl : List String) : String :=
+  match Spec.Lz.parse s with
+  | .ok (ext, _, toks) =>
+    if !(Spec.Lz.validB ext toks) then "FAIL oracle bug: parser accepted invalid tokens" else
+    match impl with
+    | _ :: "ok" :: outHex :: _ =>
+      if bytesOfHex outHex == some (Spec.Lz.expand toks).toList then s!"ok conforming tokens={toks.length}"
+      else "FAIL well-formed stream decoded to something other than its expansion"
+    | _ => "FAIL well-formed stream was not decoded"
+  | .error e =>
+    match e with
+    | .leftover | .overshoot | .nonCanonical =>
+      -- not one of the malformation classes the property lists: only "no panic" is required
+      "ok skip " ++ e.name
+    | _ =>
+      match impl with
+      | _ :: "err" :: _ => "ok rejected " ++ e.name
+      | _ => "FAIL malformed stream (" ++ e.name ++ ") must be an error"
+
+def oracleDecode (kind : String) (s : Bytes) (impl : List String) : String :=
+  if impl.getD 1 "" == "panic" then "FAIL panic" else
+  if kind == "d13" || kind == "f13" then
+    if s.length < 4 then
+      (if impl.getD 1 "" == "err" then "ok rejected short" else "FAIL input shorter than a header must be an error")
+    else if s.head? == some 0 then
+      (if impl.getD 1 "" == "ok" && bytesOfHex (impl.getD 2 "") == some (s.drop 4) then "ok stored"
+       else "FAIL stored form must return the bytes after the 4-byte header")
+    else if s.head? == some 0x13 then judgeStream (s.drop 4) impl
+    else judgeStream s impl
+  else judgeStream s impl
 
 def family : Family where
   State := Unit
   init := ()
-  step := fun _ _ _ => ((), "unimplemented", "FAIL unimplemented")
+  step := fun _ c i =>
+    match c with
+    | [_, "c10", _, x] =>
+      let x := (hexOrBad x).toArray
+      ((), modelCompress false x, oracleCompress false x i)
+    | [_, "c13", _, x] =>
+      let x := (hexOrBad x).toArray
+      ((), modelCompress true x, oracleCompress true x i)
+    | [_, "b10", p, x] =>
+      let x := (hexOrBad x).toArray
+      ((), modelCompress false x, oracleBounds false p.toNat! x i)
+    | [_, "b13", p, x] =>
+      let x := (hexOrBad x).toArray
+      ((), modelCompress true x, oracleBounds true p.toNat! x i)
+    | [_, kind, s] =>
+      if kind == "d10" || kind == "d13" || kind == "f10" || kind == "f13" then
+        let s := hexOrBad s
+        ((), modelDecode kind s, oracleDecode kind s i)
+      else ((), "bad-case", "FAIL bad-case")
+    | _ => ((), "bad-case", "FAIL bad-case")
 
 end Driver.Lz
